@@ -230,6 +230,13 @@ func runPoolCase(c *checkCtx, cs poolCase) (res poolResult) {
 		sm.Close()
 		fenceN(2)
 	}()
+	if cs.Chaos == "server-close" || cs.Chaos == "all" {
+		// widen the window between Stream.close's state load and its CAS: the peer's close may land there (X15)
+		k := newCtl("c15", cs.Seed)
+		k.set(vpStreamCloseLoaded, 80, 40*time.Microsecond, 80)
+		k.install()
+		defer uninstallCtl()
+	}
 	var violMu sync.Mutex
 	var nViol int32
 	violate := func(format string, a ...interface{}) {
